@@ -53,11 +53,17 @@ func C17(c *Ctx) {
 		// ---- b
 		sf := v.Func("parser", "sliceFrom")
 		okS := false
-		if sf != nil && len(sf.Body.List) == 1 {
-			if rs, ok := sf.Body.List[0].(*ast.ReturnStmt); ok {
-				param := sf.Type.Params.List[0].Names[0].Name
-				t := nospace(rs.Results[0])
-				okS = t == "p.data["+param+".position.offset:p.pt.position.offset]" || t == "p.data["+param+".offset:p.pt.offset]"
+		if sf != nil && len(sf.Type.Params.List) == 1 && len(sf.Type.Params.List[0].Names) == 1 {
+			// on the normalised paths (locals read as their values): every path returns the bytes of the input between
+			// the savepoint's offset and the current one, and nothing decides otherwise
+			param := sf.Type.Params.List[0].Names[0].Name
+			paths := c.vnorm(v).normPaths(sf)
+			okS = len(paths) > 0
+			for _, p := range paths {
+				t := strings.ReplaceAll(lastReturn(p), ".position.offset", ".offset")
+				if t != "p.data["+param+".offset:p.pt.offset]" || len(p.facts()) > 0 {
+					okS = false
+				}
 			}
 		}
 		r.Check(okS, "C17-b", "T.sliceFrom:original-bytes", vn, "builder/static_code.go", "p.data[start.offset:p.pt.offset]", "sliceFrom is not a byte slice of the input between the savepoint and the current offset")
